@@ -507,7 +507,7 @@ func runC16(c *eng.Ctx) {
 	if c.Want("f", 1) {
 		paths := [][]string{{"a"}, {"a", "b"}, {"a", "0", "c"}, {"a", "b c"}, {"a/b", "é"}, {"a", "x.y", ""},
 			// identifiers that start with (or are) a keyword must stay identifiers
-			{"a", "x~1y"}, {"~0", "~1", "a~01"}, {"a", "b/c", "d~e"},
+			{"a", "x~1y"}, {"~0", "~1", "a~01"}, {"a", "b/c", "d~e"}, {"a", "k/"}, {"k~", "a"}, {"/", "~"}, {"~k", "/k", "~~"},
 			{"notes"}, {"android", "order"}, {"inside", "isempty", "0"}, {"anyone", "allow"}, {"ask", "matchesx"}, {"containsx", "emptyx", "nota"}}
 		litsF1 := []string{"1", "-1.5", "abc", "a b", "", "/a/b", "a.b", "true", "0x1f", "é\"", "`", "nothing", "ore", "andy", "a.0", "notes.b.1", "x/y"}
 		for op := 0; op < 8; op++ {
